@@ -719,6 +719,10 @@ def tecmp_jobs():
     # long bus-status messages (property: 0..40 entries)
     for n, tier in ((28 + 12 + 12 * 22, "quick"), (28 + 12 + 12 * 40, "thorough"), (28 + 12 + 12 * 30 + 5, "thorough")):
         add(n, 2, tier=tier)
+    # bus status with a concrete vendor-data length in the generic part (entries stay 12 bytes whatever it says)
+    for n, vdl, tier in ((57, 5, "quick"), (76, 16, "quick"), (64, 5, "thorough"), (64, 12, "thorough"), (76, 0xFFFF, "thorough"), (52, 4, "thorough"), (52, 16, "thorough")):
+        add(n, 2, tier=tier)
+        jobs[-1].defs["VDL"] = vdl
     # capture-module status: only the shapes that must be rejected (payload shorter than the 36-byte fixed part). The
     # conversion itself calls std::stringstream / std::to_string (libstdc++.so, no IR) and made symex crawl even with
     # std::string instantiated from the headers (variant "str", kept in the driver) - outside the claim.
@@ -837,6 +841,8 @@ def c01_jobs():
     add([24], None, pkind=7)
     add([48], [3], pkind=101, maxb=100)
     add([46], [3], pkind=102, maxb=100)
+    add([47], [3], pkind=101, maxb=100)   # odd vendor-data lengths
+    add([45], [3], pkind=102, maxb=100)
     add([48], [3], pkind=101, maxb=48, tier="thorough", timeout=1200)
     add([46, 24], [3, 3], pkind=102, maxb=100, tier="thorough", timeout=1200)
     add([40, 24], None, pkind=7, maxb=64, tier="thorough", timeout=1200)
